@@ -13,29 +13,67 @@ Proof. destruct m; reflexivity. Qed.
 Lemma bind_ret {A} (m : res A) : bind m (fun x => Ok x) = m.
 Proof. destruct m; reflexivity. Qed.
 
+
+(* When a kernel has been rewritten in the Rust source into something that is not convertible with the model's text but
+   performs the same checked operations on provably equal operands (commuted products, re-associated constants, ...),
+   [keq] walks the two monadic programs in lock step and proves operand equalities with ring / lia. *)
+Create HintDb keqdb.
+Ltac kleaf := first [ reflexivity | (f_equal; first [ring | lia]) | (f_equal; f_equal; first [ring | lia]) | solve [repeat (f_equal; try first [ring | lia])] ].
+Ltac kstep :=
+  match goal with
+  | |- ?x = ?x => reflexivity
+  | |- bind ?m ?f = bind ?m' ?g =>
+      first [ constr_eq m m'
+            | let E := fresh "E" in
+              assert (E : m = m') by (unfold add32, sub32, mul32, neg32, abs32, add64, sub64, mul64, abs64; kleaf);
+              rewrite E; clear E ];
+      destruct m'; cbn beta iota delta [bind]; [ | reflexivity | reflexivity | reflexivity ]
+  | |- (if ?c then _ else _) = (if ?c' then _ else _) =>
+      first [ constr_eq c c' | let E := fresh "E" in assert (E : c = c') by kleaf; rewrite E; clear E ];
+      destruct c'
+  | |- Ok _ = Ok _ => first [ reflexivity | (f_equal; first [ring | lia]) | (f_equal; f_equal; first [ring | lia]) ]
+  | |- context [match ?p with (_, _) => _ end] => is_var p; destruct p
+  | |- chk32 _ _ = chk32 _ _ => kleaf
+  | |- chk64 _ _ = chk64 _ _ => kleaf
+  end.
+(* fragment kernels: unfold the fragment, turn calls of regenerated whole-function kernels into the model's functions *)
+Ltac kfrag := first [ reflexivity | (intros; autounfold with kfragdb; repeat (try autorewrite with keqdb; first [reflexivity | kstep])) ].
+Ltac keq k h := intros; cbv beta zeta delta [k h]; repeat (try autorewrite with keqdb; kstep).
+
 (* ---- whole functions ---- *)
 Lemma k_partial_reduce64_eq a : k_partial_reduce64 a = partial_reduce64 a.
-Proof. reflexivity. Qed.
+Proof. first [reflexivity | keq k_partial_reduce64 partial_reduce64]. Qed.
+#[local] Hint Rewrite k_partial_reduce64_eq : keqdb.
 Lemma k_partial_reduce32_eq a : k_partial_reduce32 a = partial_reduce32 a.
-Proof. reflexivity. Qed.
+Proof. first [reflexivity | keq k_partial_reduce32 partial_reduce32]. Qed.
+#[local] Hint Rewrite k_partial_reduce32_eq : keqdb.
 Lemma k_full_reduce32_eq a : k_full_reduce32 a = full_reduce32 a.
-Proof. reflexivity. Qed.
+Proof. first [reflexivity | keq k_full_reduce32 full_reduce32]. Qed.
+#[local] Hint Rewrite k_full_reduce32_eq : keqdb.
 Lemma k_center_mod_eq m : k_center_mod m = center_mod m.
-Proof. reflexivity. Qed.
+Proof. first [reflexivity | keq k_center_mod center_mod]. Qed.
+#[local] Hint Rewrite k_center_mod_eq : keqdb.
 Lemma k_mont_reduce_eq a : k_mont_reduce a = mont_reduce a.
-Proof. reflexivity. Qed.
+Proof. first [reflexivity | keq k_mont_reduce mont_reduce]. Qed.
+#[local] Hint Rewrite k_mont_reduce_eq : keqdb.
 Lemma k_decompose_eq g r : k_decompose g r = decompose g r.
-Proof. reflexivity. Qed.
+Proof. first [reflexivity | keq k_decompose decompose]. Qed.
+#[local] Hint Rewrite k_decompose_eq : keqdb.
 Lemma k_high_bits_eq g r : k_high_bits g r = high_bits g r.
-Proof. reflexivity. Qed.
+Proof. first [reflexivity | keq k_high_bits high_bits]. Qed.
+#[local] Hint Rewrite k_high_bits_eq : keqdb.
 Lemma k_low_bits_eq g r : k_low_bits g r = low_bits g r.
-Proof. reflexivity. Qed.
+Proof. first [reflexivity | keq k_low_bits low_bits]. Qed.
+#[local] Hint Rewrite k_low_bits_eq : keqdb.
 Lemma k_make_hint_eq g z r : k_make_hint g z r = make_hint g z r.
-Proof. reflexivity. Qed.
+Proof. first [reflexivity | keq k_make_hint make_hint]. Qed.
+#[local] Hint Rewrite k_make_hint_eq : keqdb.
 Lemma k_use_hint_eq g h r : k_use_hint g h r = use_hint g h r.
-Proof. reflexivity. Qed.
+Proof. first [reflexivity | keq k_use_hint use_hint]. Qed.
+#[local] Hint Rewrite k_use_hint_eq : keqdb.
 Lemma k_coeff_from_half_byte_eq ct eta b : k_coeff_from_half_byte ct eta b = coeff_from_half_byte ct eta b.
-Proof. reflexivity. Qed.
+Proof. first [reflexivity | keq k_coeff_from_half_byte coeff_from_half_byte]. Qed.
+#[local] Hint Rewrite k_coeff_from_half_byte_eq : keqdb.
 
 (* the byte arguments of coeff_from_three_bytes are u8 values; the model's unwrapped shifts agree with the
    wrapping `<<` of the code on them *)
@@ -68,31 +106,31 @@ Proof.
   - unfold is_in_range. induction w as [|x w IH]; [reflexivity|]. cbn [forallb map]. rewrite IH. reflexivity.
 Qed.
 Lemma k_to_mont_coef_eq x : k_to_mont_coef x = to_mont_coef x.
-Proof. reflexivity. Qed.
+Proof. kfrag. Qed.
 Lemma k_add_coef_eq a b : k_add_coef a b = add32 a b.
-Proof. reflexivity. Qed.
+Proof. kfrag. Qed.
 Lemma k_acc_coef_eq acc a u : k_acc_coef acc a u = acc_coef acc a u.
 Proof.
   unfold k_acc_coef, acc_coef, mul_mont_coef. cbv zeta. rewrite bind_assoc'.
-  change k_mont_reduce with mont_reduce. destruct (mul64 a u) as [p| | |]; cbn [bind]; try reflexivity.
+  destruct (mul64 a u) as [p| | |]; cbn [bind]; try reflexivity. rewrite k_mont_reduce_eq.
   destruct (mont_reduce p) as [m| | |]; cbn [bind]; try reflexivity. apply bind_ret.
 Qed.
 Lemma k_abs_center_eq e : k_abs_center e = abs_center e.
-Proof. reflexivity. Qed.
+Proof. kfrag. Qed.
 Lemma k_p2r_hi_eq r : k_p2r_hi r = p2r_hi r.
-Proof. reflexivity. Qed.
+Proof. kfrag. Qed.
 Lemma k_p2r_lo_eq r r1 : k_p2r_lo r r1 = p2r_lo r r1.
-Proof. reflexivity. Qed.
+Proof. kfrag. Qed.
 Lemma k_p2r_check_eq r r1 r0 : k_p2r_check r r1 r0 = p2r_check r r1 r0.
-Proof. reflexivity. Qed.
+Proof. kfrag. Qed.
 (* forward butterfly: (hi', lo') = (lo - t, lo + t), t = mont_reduce (zeta * hi) *)
 Lemma k_ntt_butterfly_eq zeta hi lo :
   k_ntt_butterfly zeta hi lo = (t <- fwd_t zeta hi ;; h <- sub32 lo t ;; l <- add32 lo t ;; Ok (h, l)).
 Proof. unfold k_ntt_butterfly, fwd_t. cbv zeta. rewrite bind_assoc'. reflexivity. Qed.
 Lemma k_inv_input_eq x : k_inv_input x = partial_reduce32 x.
-Proof. reflexivity. Qed.
+Proof. kfrag. Qed.
 Lemma k_inv_zeta_eq z : k_inv_zeta z = neg32 z.
-Proof. reflexivity. Qed.
+Proof. kfrag. Qed.
 (* inverse butterfly: (lo', hi') = (lo + hi, mont_reduce (zeta * (lo - hi))) *)
 Lemma k_inv_butterfly_eq lo hi nz :
   k_inv_butterfly lo hi nz = (l <- add32 lo hi ;; h <- inv_hi nz lo hi ;; Ok (l, h)).
@@ -101,13 +139,12 @@ Proof.
   rewrite !bind_assoc'. destruct (sub32 lo hi); cbn [bind]; try reflexivity. rewrite bind_assoc'. reflexivity.
 Qed.
 Lemma k_F_MONT_eq : k_F_MONT = F_MONT.
-Proof. reflexivity. Qed.
+Proof. kfrag. Qed.
 Lemma k_inv_final_eq x : k_inv_final x = inv_final x.
 Proof.
   unfold k_inv_final, inv_final. cbv zeta. change 16382 with F_MONT.
-  change k_mont_reduce with mont_reduce. change k_full_reduce32 with full_reduce32.
-  destruct (mul64 F_MONT x) as [p| | |]; cbn [bind]; try reflexivity.
-  destruct (mont_reduce p) as [m| | |]; cbn [bind]; try reflexivity. apply bind_ret.
+  destruct (mul64 F_MONT x) as [p| | |]; cbn [bind]; try reflexivity. rewrite k_mont_reduce_eq.
+  destruct (mont_reduce p) as [m| | |]; cbn [bind]; try reflexivity. rewrite k_full_reduce32_eq. apply bind_ret.
 Qed.
 
 (* one name for the whole tie, pinned by the property files *)
@@ -136,19 +173,19 @@ Print Assumptions kernels_agree.
 
 (* ---- ml_dsa.rs / lib.rs: per-coefficient closures, named after the vector they define ---- *)
 Lemma k_keygen_coef_eq x : k_keygen_t x = full_reduce32 x /\ k_keygen_t1_d2_hat_mont x = mont_reduce (shl64 x D).
-Proof. split; reflexivity. Qed.
+Proof. split; kfrag. Qed.
 Lemma k_expand_public_coef_eq x : k_expand_public_t1_d2_hat_mont x = mont_reduce (shl64 x D).
-Proof. reflexivity. Qed.
+Proof. kfrag. Qed.
 Lemma k_sk_to_pk_coef_eq x :
   k_sk_to_pk_s_1_hat x = mont_reduce x /\ k_sk_to_pk_s_2 x = mont_reduce x /\ k_sk_to_pk_s_2_2 x = recenter x /\
   k_sk_to_pk_t x = full_reduce32 x /\ k_sk_to_pk_t1_d2_hat_mont x = mont_reduce (shl64 x D).
-Proof. repeat apply conj; reflexivity. Qed.
+Proof. repeat apply conj; kfrag. Qed.
 Lemma k_sk_bytes_coef_eq x :
   k_sk_bytes_s_1 x = mont_reduce x /\ k_sk_bytes_s_2 x = mont_reduce x /\ k_sk_bytes_t_0 x = mont_reduce x /\
   k_sk_bytes_s_1_2 x = recenter x /\ k_sk_bytes_s_2_2 x = recenter x /\ k_sk_bytes_t_0_2 x = recenter x.
-Proof. repeat apply conj; reflexivity. Qed.
+Proof. repeat apply conj; kfrag. Qed.
 Lemma k_pk_bytes_coef_eq x : k_pk_bytes_t1_d2 x = mont_reduce x /\ k_pk_bytes_t1 x = Ok (shr x D).
-Proof. split; reflexivity. Qed.
+Proof. split; kfrag. Qed.
 Lemma k_sign_coef_eq gamma2 a b c :
   k_sign_w_1 gamma2 a = high_bits gamma2 a /\ k_sign_cs1_hat a b = mul_mont_coef a b /\ k_sign_cs2_hat a b = mul_mont_coef a b /\
   k_sign_ct0_hat a b = mul_mont_coef a b /\
@@ -157,10 +194,10 @@ Lemma k_sign_coef_eq gamma2 a b c :
   k_sign_h gamma2 c a b = (x <- sub32 Q c ;; s <- sub32 a b ;; s <- add32 s c ;; p <- partial_reduce32 s ;;
                            hb <- make_hint gamma2 x p ;; Ok (Z.b2z hb)) /\
   k_sign_zmodq a = center_mod a.
-Proof. repeat apply conj; reflexivity. Qed.
+Proof. repeat apply conj; kfrag. Qed.
 Lemma k_verify_coef_eq gamma2 az ch t1 :
   k_verify_wp_approx az ch t1 = (m <- mul_mont_coef ch t1 ;; sub32 az m) /\ k_verify_wp_1 gamma2 az ch = use_hint gamma2 az ch.
-Proof. split; [|reflexivity]. unfold k_verify_wp_approx, mul_mont_coef. rewrite bind_assoc'. reflexivity. Qed.
+Proof. split; [|kfrag]. unfold k_verify_wp_approx, mul_mont_coef. rewrite bind_assoc'. reflexivity. Qed.
 
 (* ---- ml_dsa.rs: the decisions.  gamma - beta is a checked i32 subtraction in the code and a plain one in the model:
    they agree whenever the difference is an i32, in particular for the three parameter sets ---- *)
@@ -171,7 +208,7 @@ Proof.
   destruct ct; cbn [negb andb bind]; [reflexivity|]. destruct (g1 - b <=? zn); reflexivity.
 Qed.
 Lemma k_sign_reject2_eq ct n g2 hs om : k_sign_reject2 ct n g2 hs om = Ok (negb ct && ((g2 <=? n) || (om <? hs))).
-Proof. reflexivity. Qed.
+Proof. kfrag. Qed.
 Lemma k_verify_left_eq zn g1 b : in_i32 (g1 - b) = true -> k_verify_left zn g1 b = Ok (zn <? g1 - b).
 Proof. intros H1. unfold k_verify_left, sub32, chk32. rewrite H1. reflexivity. Qed.
 Lemma params_gamma_beta P : In P all_params -> in_i32 (p_gamma1 P - p_beta P) = true /\ in_i32 (p_gamma2 P - p_beta P) = true.
@@ -208,7 +245,7 @@ Lemma sign_attempt_with_kernels H ctest P sk cap_a_hat mu rho_prime kappa :
              else n <- infinity_norm c_t_0 ;;
                   Ok ((gamma2 <=? n) || (p_omega P <? sum_hints h))) ;;
      if rej : bool then Ok None else Ok (Some (c_tilde, z, h))).
-Proof. reflexivity. Qed.
+Proof. kfrag. Qed.
 
 Lemma verify_core_with_kernels H ctest P pk sig :
   verify_core H ctest P pk sig =
@@ -233,7 +270,7 @@ Lemma verify_core_with_kernels H ctest P pk sig :
        zn2 <- infinity_norm z ;;
        Ok (Some (c_tilde, tmp, zn2 <? gamma1 - p_beta P))
    end).
-Proof. reflexivity. Qed.
+Proof. kfrag. Qed.
 
 Theorem ml_dsa_kernels_agree :
   (forall x, k_keygen_t x = full_reduce32 x /\ k_keygen_t1_d2_hat_mont x = mont_reduce (shl64 x D)) /\
@@ -296,7 +333,7 @@ Lemma hbu_poly_with_kernels omega y acc index i :
    c1 <- k_hbu_cond1 c index omega ;;
    if c1 : bool then Err Malformed
    else '(p, index') <- hbu_while 257 y c index index (zeros 256) ;; Ok (acc ++ [p], index')).
-Proof. reflexivity. Qed.
+Proof. kfrag. Qed.
 Print Assumptions k_hbu_conds_eq.
 Print Assumptions hbu_while_with_kernels.
 Print Assumptions hbu_poly_with_kernels.
@@ -307,4 +344,4 @@ Print Assumptions hbu_poly_with_kernels.
 Lemma sign_loop_bookkeeping :
   k_sign_kappa_init = "0u16"%string /\ k_sign_kappa_max = "u16::MAX - 2 * u16::try_from(L)"%string /\
   k_sign_kappa_steps = [("kappa_ctr <= kappa_max", "u16::try_from(L)"); ("kappa_ctr <= kappa_max", "u16::try_from(L)")]%string.
-Proof. repeat apply conj; reflexivity. Qed.
+Proof. repeat apply conj; kfrag. Qed.
